@@ -50,7 +50,8 @@ theorem window_eq (l : Bytes) (p k : Nat) (h : p + k ≤ l.length) :
   · intro i h1 h2
     simp only [List.length_map, List.length_range] at h2
     simp only [List.getElem_take, List.getElem_drop, List.getElem_map, List.getElem_range]
-    rw [List.getD_eq_getElem _ _ (by omega)]
+    have hlt : p + i < l.length := by omega
+    simp [List.getD_eq_getElem?_getD, hlt]
 
 /-- relation between the C-side stream state and the abstract position: `c0` is the counter
     given to `chacha_set_nonce`, `o` the number of key stream bytes consumed since then -/
